@@ -30,6 +30,8 @@ def uf(name, arity):
 def opt_code(k):
     """An option value enters the uninterpreted function together with its Python type: 2, 2.0 and True are
     different arguments for a user function."""
+    if isinstance(k, str):
+        return z3.IntVal(3_000_000 + sum((i + 1) * ord(ch) for i, ch in enumerate(k)))
     if isinstance(k, (bool, np.bool_)):
         return z3.IntVal(2_000_000 + int(k))
     if isinstance(k, (float, np.floating)):
@@ -75,12 +77,12 @@ def make_elementwise(log, k, with_kw, opt="scale"):
     env = {"log": log, "np": np, "S": S, "G_point": G_point}
     if with_kw:
         src = f"""def f(*xs, {opt}=1):
-    log.append({{"shapes": [tuple(np.shape(x)) for x in xs], "kw": {{"{opt}": {opt}}}}})
+    log.append({{"shapes": [tuple(np.shape(x)) for x in xs], "types": [type(x).__name__ for x in xs], "kw": {{"{opt}": {opt}}}}})
     return S._map(lambda *v: G_point(v, [{opt}]), *xs)
 """
     else:
         src = """def f(*xs):
-    log.append({"shapes": [tuple(np.shape(x)) for x in xs], "kw": {}})
+    log.append({"shapes": [tuple(np.shape(x)) for x in xs], "types": [type(x).__name__ for x in xs], "kw": {}})
     return S._map(lambda *v: G_point(v, []), *xs)
 """
     return _define(src, env)
@@ -95,8 +97,9 @@ def concrete_fn(kind, with_kw):
             axis = tuple(axis) if isinstance(axis, (tuple, list)) else (axis,)
             keep = [i for i in range(x.ndim) if i not in axis]
             y = np.transpose(x, keep + sorted(axis)).reshape(tuple(x.shape[i] for i in keep) + (-1,))
-            w = np.arange(1, y.shape[-1] + 1) ** 2 + int(scale)
-            return (y * w).sum(-1) + 7 * int(scale) + (1 if isinstance(scale, float) else 0) + (2 if isinstance(scale, bool) else 0)
+            v = sum((i + 1) * ord(ch) for i, ch in enumerate(scale)) if isinstance(scale, str) else int(scale)
+            w = np.arange(1, y.shape[-1] + 1) ** 2 + v
+            return (y * w).sum(-1) + 7 * v + (1 if isinstance(scale, float) else 0) + (2 if isinstance(scale, bool) else 0)
 
         return f
 
@@ -104,7 +107,9 @@ def concrete_fn(kind, with_kw):
         out = 0
         for i, x in enumerate(xs):
             out = out + (i + 2) ** 2 * np.asarray(x)
-        return out + 5 * int(scale) + (1 if isinstance(scale, float) else 0) + (2 if isinstance(scale, bool) else 0)
+        unaligned = any(np.ndim(x) != np.ndim(xs[0]) for x in xs) or (np.ndim(xs[0]) > 0 and any(not isinstance(x, np.ndarray) for x in xs))
+        v = sum((i + 1) * ord(ch) for i, ch in enumerate(scale)) if isinstance(scale, str) else int(scale)
+        return out + 5 * v + (1 if isinstance(scale, float) else 0) + (2 if isinstance(scale, bool) else 0) + (100000 if unaligned else 0)
 
     return g
 
@@ -115,13 +120,16 @@ def user_reduce(x, axis, *, scale=1):
     axis = tuple(axis) if isinstance(axis, (tuple, list)) else (axis,)
     keep = [i for i in range(x.ndim) if i not in axis]
     y = np.transpose(x, keep + sorted(axis)).reshape(tuple(x.shape[i] for i in keep) + (-1,))
-    w = np.arange(1, y.shape[-1] + 1) ** 2 + int(scale)
-    return (y * w).sum(-1) + 7 * int(scale) + (1 if isinstance(scale, float) else 0) + (2 if isinstance(scale, bool) else 0)
+    v = sum((i + 1) * ord(ch) for i, ch in enumerate(scale)) if isinstance(scale, str) else int(scale)
+    w = np.arange(1, y.shape[-1] + 1) ** 2 + v
+    return (y * w).sum(-1) + 7 * v + (1 if isinstance(scale, float) else 0) + (2 if isinstance(scale, bool) else 0)
 def user_elementwise(*xs, scale=1):
     out = 0
     for i, x in enumerate(xs):
         out = out + (i + 2) ** 2 * np.asarray(x)
-    return out + 5 * int(scale) + (1 if isinstance(scale, float) else 0) + (2 if isinstance(scale, bool) else 0)
+    unaligned = any(np.ndim(x) != np.ndim(xs[0]) for x in xs) or (np.ndim(xs[0]) > 0 and any(not isinstance(x, np.ndarray) for x in xs))
+    v = sum((i + 1) * ord(ch) for i, ch in enumerate(scale)) if isinstance(scale, str) else int(scale)
+    return out + 5 * v + (1 if isinstance(scale, float) else 0) + (2 if isinstance(scale, bool) else 0) + (100000 if unaligned else 0)
 '''
 
 
@@ -140,8 +148,16 @@ def work(item):
     fn = make_reduce(log, with_kw, opt) if kind == "reduce" else make_elementwise(log, len(case["ins"]), with_kw, opt)
     einfn = (einx.numpy.adapt_numpylike_reduce if kind == "reduce" else einx.numpy.adapt_numpylike_elementwise)(fn)
     arrs = harness.build_inputs(case)
-    res = {"desc": case["desc"], "kind": kind, "with_kw": with_kw, "option": opt, "results": []}
-    scales = [2, 3.0, 2.0, 2, True] if with_kw else [None]
+    # operands with an empty expression may be given as plain Python numbers: the user function must still receive
+    # tensors of equal rank
+    py_scalars = {}
+    if kind == "elementwise" and len(case["ins"]) >= 2 and any(len(e) > 0 for e in case["ins"]):
+        for i, e in enumerate(case["ins"]):
+            if len(e) == 0 and orng.random() < 0.6:
+                py_scalars[i] = orng.choice([2, 3, 7])
+                arrs[i] = S.from_concrete(np.array(py_scalars[i]))
+    res = {"desc": case["desc"], "kind": kind, "with_kw": with_kw, "option": opt, "results": [], "python_scalars": sorted(py_scalars)}
+    scales = [2, 3.0, 2.0, 2, True, 'say "hi"', "tab" + chr(92) + "t", "it's", "line" + chr(10) + "break"] if with_kw else [None]
     for call_no, scale in enumerate(scales):
         kw = dict(case["kwargs"])
         if scale is not None:
@@ -149,7 +165,7 @@ def work(item):
         del log[:]
         r = {"scale": scale}
         try:
-            out = einfn(case["desc"], *[S.wrap(S.plain(a).copy()) for a in arrs], **kw)
+            out = einfn(case["desc"], *[py_scalars[i] if i in py_scalars else S.wrap(S.plain(a).copy()) for i, a in enumerate(arrs)], **kw)
         except Exception as e:  # noqa: BLE001
             r["status"] = harness.classify_exception(e)
             r["error"] = f"{type(e).__name__}: {str(e)[:400]}"
@@ -187,7 +203,7 @@ def work(item):
                 bc = True
             except ValueError:
                 bc = False
-            ok_args = len(nd) == 1 and bc and len(c["shapes"]) == len(case["ins"]) and kw_same(c["kw"], {opt: scale} if scale is not None else {})
+            ok_args = len(nd) == 1 and bc and len(c["shapes"]) == len(case["ins"]) and (all(t in ("SymArray", "ndarray") for t in c.get("types", [])) or all(len(s_) == 0 for s_ in c["shapes"])) and kw_same(c["kw"], {opt: scale} if scale is not None else {})
         r["args_ok"] = ok_args
         if v in ("unsat", "trivial") and ok_args:
             r["status"] = "holds"
@@ -195,12 +211,12 @@ def work(item):
             r["status"] = "unknown"
         else:
             # replay with a concrete order-sensitive function on plain numpy
-            r["status"] = replay_concrete(case, kind, with_kw, scale, model, arrs, r, not ok_args, log, opt)
+            r["status"] = replay_concrete(case, kind, with_kw, scale, model, arrs, r, not ok_args, log, opt, py_scalars)
         res["results"].append(r)
     return res
 
 
-def replay_concrete(case, kind, with_kw, scale, model, arrs, r, args_bad, log, opt="scale"):
+def replay_concrete(case, kind, with_kw, scale, model, arrs, r, args_bad, log, opt="scale", py_scalars=None):
     import hashlib, json, os
 
     if model is not None:
@@ -227,6 +243,7 @@ def replay_concrete(case, kind, with_kw, scale, model, arrs, r, args_bad, log, o
         "with_kw": with_kw,
         "kwargs": runner.jsonable(dict(case["kwargs"], **({opt: scale} if scale is not None else {}))),
         "option": opt,
+        "python_scalars": sorted(py_scalars or {}),
         "args": [replay.enc_array(a, "int") for a in conc],
         "expected": np.array(ref[0], dtype=object).tolist() if ref[0].shape != () else int(ref[0][()]),
         "expected_shape": list(ref[0].shape),
@@ -244,6 +261,7 @@ def replay_concrete(case, kind, with_kw, scale, model, arrs, r, args_bad, log, o
             "else:\n    ns = {'base': base}\n    exec(('def fn(x, axis, *, %s=1):\\n    return base(x, axis, scale=%s)' if SPEC['kind'] == 'reduce' else 'def fn(*xs, %s=1):\\n    return base(*xs, scale=%s)') % (SPEC['option'], SPEC['option']), ns)\n    fn = ns['fn']\n"
             "ein = (einx.numpy.adapt_numpylike_reduce if SPEC['kind'] == 'reduce' else einx.numpy.adapt_numpylike_elementwise)(fn)\n"
             "args = [np.array(a['data'], dtype=a['dtype']).reshape(a['shape']) for a in SPEC['args']]\n"
+            "args = [int(a) if i in SPEC['python_scalars'] else a for i, a in enumerate(args)]\n"
             "out = np.asarray(ein(SPEC['desc'], *args, **{k: tup(v) for k, v in SPEC['kwargs'].items()}))\n"
             "exp = np.array(SPEC['expected']).reshape(SPEC['expected_shape'])\n"
             "print('call:', SPEC['desc'], SPEC['kwargs'])\nprint('got', out.tolist())\nprint('loop notation', exp.tolist())\n"
@@ -256,7 +274,7 @@ def replay_concrete(case, kind, with_kw, scale, model, arrs, r, args_bad, log, o
         return "violation"
     if args_bad:
         r["replay_out"] = f"user function received {log}"
-        return "args-violation"
+        return "args-unconfirmed"  # the logged arguments differ from the documented ones, but the concrete replay computes the expected values
     return "not-reproduced"
 
 
